@@ -174,6 +174,15 @@ def drive_retrieval_clients(ctx, tier):
                 _retrieve(functools.partial(o, 0))
 
 
+def _wraps_forwarder(fn):
+    import functools
+
+    @functools.wraps(fn)
+    def wrapper(label_, *args, **kwargs):
+        return fn(*args, **kwargs)
+    return wrapper
+
+
 def drive_modifiers(ctx, tier):
     """Provenance of sigtools.modifiers wrapper objects: single and stacked layers, annotate
     innermost or on top, the same raw function wrapped by two separate wrappers, bound copies,
@@ -212,6 +221,8 @@ def drive_modifiers(ctx, tier):
         ctx.count('driver.modifier_objects')
         if rnd.random() < 0.4:
             f = modifiers.annotate(**{pk[0]: 5})(f)         # a stored signature on the raw function itself
+        # a forwarding functools.wraps wrapper around it (update_wrapper copies f.__dict__, a stored __signature__ included)
+        look(_wraps_forwarder(f))
         objs = [layer(f, pk)]
         if rnd.random() < 0.5:
             objs.append(layer(objs[0], pk))                  # stacked
